@@ -6,9 +6,12 @@ package linkworld
 
 import (
 	"errors"
+	"fmt"
 	"io"
 	"net"
+	"runtime/debug"
 	"sync"
+	"sync/atomic"
 	"time"
 
 	"github.com/mycoria/mycoria/frame"
@@ -285,3 +288,50 @@ func SendFrame(from, to *world.Node, l peering.Link, mt frame.MessageType, paylo
 	}
 	return cp, l.Send(f)
 }
+
+// SetupRet is the result of one end's link set-up.
+type SetupRet struct {
+	Link peering.Link
+	Err  error
+}
+
+// Pending is a connection whose two set-ups run on their own goroutines.
+type Pending struct {
+	Proxy        *Proxy
+	ConnA, ConnB net.Conn // the connection ends handed to the dialler (A) and the listener (B)
+	DoneA, DoneB chan SetupRet
+}
+
+// Start begins the real link set-up on both ends (a dials, b listens) and
+// returns at once; the results arrive on DoneA / DoneB.
+func Start(a, b *world.Node) *Pending {
+	ca, pa := net.Pipe()
+	cb, pb := net.Pipe()
+	p := &Proxy{ends: map[string]net.Conn{"A": pa, "B": pb}, Transcript: map[string][][]byte{}, Delivered: map[string][][]byte{},
+		lastAct: time.Now(), RawBytes: map[string][]byte{}}
+	go p.loop("A")
+	go p.loop("B")
+	url, err := m.ParsePeeringURL("tcp://127.0.0.1:47369")
+	if err != nil {
+		panic(err)
+	}
+	pd := &Pending{Proxy: p, ConnA: ca, ConnB: cb, DoneA: make(chan SetupRet, 1), DoneB: make(chan SetupRet, 1)}
+	setup := func(n *world.Node, conn net.Conn, outgoing bool, done chan SetupRet) {
+		// In the router a set-up runs under a manager that recovers panics; here the panic is reported as the
+		// set-up's error ("panic: ...") so that the driver can judge it.
+		defer func() {
+			if r := recover(); r != nil {
+				Panics.Add(1)
+				done <- SetupRet{nil, fmt.Errorf("panic: %v\n%s", r, debug.Stack())}
+			}
+		}()
+		l, err := n.Peer.VerifSetupLink(conn, url, outgoing)
+		done <- SetupRet{l, err}
+	}
+	go setup(a, ca, true, pd.DoneA)
+	go setup(b, cb, false, pd.DoneB)
+	return pd
+}
+
+// Panics counts set-ups that panicked.
+var Panics atomic.Int64
